@@ -1,7 +1,7 @@
 #!/bin/bash
 # usage: tools/verify_seed.sh <Cxx> [name]  — confirms a seeded change in its scratch worktree /tmp/mut/<Cxx>:
 #   (a) with patch+demo: whole suite passes except the demo test(s); (b) without the patch the demo passes.
-id=$1; wt=${WT:-/tmp/mut/$id}; out=/tmp/mut/$id-out
+id=$1; wt=${WT:-/tmp/mut/$id}; out=${OUT:-/tmp/mut/$id-out}
 export CARGO_TARGET_DIR=$wt/target CARGO_NET_OFFLINE=true
 cd $wt || exit 2
 git reset -q --hard HEAD; git clean -fdq -e target
